@@ -3,6 +3,8 @@
 package zz_verif
 
 import (
+	"context"
+
 	ipfslog "berty.tech/go-ipfs-log"
 	"berty.tech/go-ipfs-log/entry"
 	"berty.tech/go-ipfs-log/entry/sorting"
@@ -344,10 +346,20 @@ func H_C11() {
 	h.api.reads = nil
 	h.api.gated = true
 	vx.ExploreOn()
-	got := entry.FetchAll(ctx, h.api, heads, &iface.FetchOptions{Concurrency: conc, IO: &atomIO{api: h.api}, Timeout: timeDur(timeout),
+	cctx, cancel := ctx, func() {}
+	callerDL := withTimeout && vx.Param("CALLERDL", 0) == 1
+	if callerDL {
+		// the caller's own context has a deadline too, three times later than the configured timeout
+		cctx, cancel = context.WithTimeout(ctx, timeDur(3*timeout))
+	}
+	got := entry.FetchAll(cctx, h.api, heads, &iface.FetchOptions{Concurrency: conc, IO: &atomIO{api: h.api}, Timeout: timeDur(timeout),
 		ShouldExclude: func(c cid.Cid) bool { return excluded[c.String()] }})
 	vx.ExploreOff()
 	vx.Cover("fetch-returned")
+	if callerDL {
+		vx.Assert("C11", cctx.Err() == nil, "the fetch returns within the configured timeout (the caller's later deadline has not expired)")
+	}
+	cancel()
 	vx.Assert("C11", len(hashSet(got)) == len(got), "no entry is returned twice")
 	reads := h.api.reads
 	vx.Assert("C11", len(strSet(reads)) == len(reads), "no hash is requested twice")
